@@ -25,11 +25,16 @@ Unary == {"size", "first", "last", "pop", "pop_first", "reverese", "sort", "sort
 Binary == {"take", "take_last", "head", "tail", "get", "+", "-", "*", "/", "%", "=", "!=", "<", "<=", ">", ">=", "and", "or", "xor", "concat", "push", "push_front",
            "zip", "cross", "split", "default", "join"}
 Ternary == {"sub", "put", "insert_if_absent", "replace_if_exists", "?"}
+\* parse_selection: texts the expression reader accepts (`.`, `(size .)`, `(+ 1 2) =x`, `.a`), one it refuses, over a three-function table
+MCFuncTable == {[name |-> <<115, 105, 122, 101>>, canon |-> "size", min |-> 1, max |-> 1], [name |-> <<43>>, canon |-> "+", min |-> 2, max |-> 100],
+                [name |-> <<108, 101, 110>>, canon |-> "size", min |-> 1, max |-> 1]}
+PSTexts == {<<46>>, <<40, 115, 105, 122, 101, 32, 46, 41>>, <<40, 43, 32, 49, 32, 50, 41, 32, 61, 120>>, <<46, 97>>, <<40, 43, 32, 49>>, <<40, 108, 101, 110, 44, 46, 41>>}
 VARIABLES f, args
 vars == <<f, args>>
 Init == \/ f \in Unary /\ args \in {<<a>> : a \in U}
         \/ f \in Binary /\ args \in {<<a, b>> : a \in U, b \in U}
         \/ f \in Ternary /\ args \in {<<a, b, c>> : a \in U, b \in {I(0), I(1), I(2), I(4), S(<<97>>), S(<<122>>), Nothing, B(TRUE)}, c \in {I(0), I(1), I(3), S(<<120>>), Nothing}}
+        \/ f = "parse_selection" /\ args \in {<<S(t)>> : t \in PSTexts} \cup {<<a>> : a \in U}
 Next == UNCHANGED vars
 Spec == Init /\ [][Next]_vars
 
@@ -61,7 +66,14 @@ WrongType == f \in DOMAIN Sig /\ Len(args) = Len(Sig[f]) /\ (\E i \in 1..Len(arg
 IsList(v) == v.t = "arr"
 SizeOf(v) == IF v.t = "arr" THEN Len(v.a) ELSE IF v.t = "obj" THEN Len(v.k) ELSE Len(v.c)
 Cnt(v) == v.t = "num" /\ ~v.neg /\ v.e >= 0
+\* parse_selection evaluates the text it is given like the expression written out (the reader of ExprSyntax.tla and Eval agree on the AST)
+PSLaw == f = "parse_selection" /\ args[1].t = "str" /\ args[1].c \in PSTexts =>
+           Res = CASE args[1].c = <<46>> -> Null
+                   [] args[1].c = <<40, 43, 32, 49, 32, 50, 41, 32, 61, 120>> -> I(3)
+                   [] args[1].c = <<40, 43, 32, 49>> -> Unspec
+                   [] OTHER -> Nothing
 Laws ==
+  /\ PSLaw
   /\ (f \in {"take", "take_last"} /\ args[1].t \in {"arr", "obj", "str"} /\ Cnt(args[2]) =>
         LET n == IntOfDec(args[2]) IN
         /\ SizeOf(Res) = Min2(n, SizeOf(args[1]))
